@@ -340,6 +340,18 @@ var unpackProgs = []unpackProg{
 	{"star-args-fail", "def f(*args):\n    fail('boom')\ndef run(x):\n    return f(*x)\nr = run(x)\n"},
 	{"star-args-panic", "def run(x):\n    return hostpanic(*x)\nr = run(x)\n"},
 	{"star-args-nonfunc", "def run(x):\n    return 1(*x)\nr = run(x)\n"},
+	// argument expansion that ends in an error raised at the call site itself, after *x was (or could have been) expanded
+	{"star-args-kwargs-nonmapping", "def f(*a, **k):\n    return 1\ndef run(x):\n    return f(*x, **5)\nr = run(x)\n"},
+	{"star-args-kwargs-nonstring-key", "def f(*a, **k):\n    return 1\ndef run(x):\n    return f(*x, **{1: 2})\nr = run(x)\n"},
+	{"star-args-kwargs-duplicate", "def f(*a, **k):\n    return 1\ndef run(x):\n    return f(*x, k=1, **{'k': 2})\nr = run(x)\n"},
+	{"star-args-kwargs-unexpected", "def f(*a):\n    return 1\ndef run(x):\n    return f(*x, **{'zz': 2})\nr = run(x)\n"},
+	{"star-args-kwargs-ok", "def f(*a, **k):\n    return 1\ndef run(x):\n    return f(0, *x, j=1, **{'k': 2})\nr = run(x)\n"},
+	{"star-args-kwargs-builtin-bad", "def run(x):\n    return max(*x, **{1: 2})\nr = run(x)\n"},
+	{"star-args-kwargs-method-bad", "def run(x):\n    return ''.join(*x, **5)\nr = run(x)\n"},
+	{"star-args-kwargs-nonfunc", "def run(x):\n    return None(*x, **{'k': 1})\nr = run(x)\n"},
+	{"star-args-kwargs-failing-operand", "def run(x):\n    return len(*x, **fail('kw'))\nr = run(x)\n"},
+	{"kwargs-same-collection", "def f(*a, **k):\n    return 1\ndef run(x):\n    return f(*x, **(x if type(x) == 'dict' else {}))\nr = run(x)\n"},
+	{"star-args-twice-nested", "def f(*a, **k):\n    return 1\ndef run(x):\n    return f(*x, **{'k': f(*x, **5)})\nr = run(x)\n"},
 }
 
 func collOfLen(kind string, n int) starlark.Value {
